@@ -110,6 +110,24 @@ theorem safe_init (reachOf : Nat → List (Nat × Hash)) (pages : Nat → Option
   · intro _ o ho; simp [initCfg] at ho
   · intro st hst; simp [initCfg] at hst
 
+/-- a trace may also start at any committed header (slot `s0`, txid `t0 > 0`, state `st0`) whose
+    state is complete on disk and whose other slot holds the previous header -/
+def startCfg (s0 t0 st0 : Nat) (pages : Nat → Option Hash) : Cfg :=
+  { durable := { pages := pages,
+                 slots := fun k => if k = s0 then some (t0, st0) else if k = 1 - s0 then some (t0 - 1, st0) else none },
+    pending := [], aSlot := s0, aTx := t0, aSt := st0, inflight := none }
+
+theorem safe_start (reachOf : Nat → List (Nat × Hash)) (s0 t0 st0 : Nat) (pages : Nat → Option Hash)
+    (hs : s0 ≤ 1) (ht : 0 < t0) (h : ∀ p hh, (p, hh) ∈ reachOf st0 → pages p = some hh) :
+    Safe reachOf (startCfg s0 t0 st0 pages) := by
+  refine ⟨hs, by simp [startCfg], ?_, h, ?_, ?_⟩
+  · intro t s
+    have hne : ¬ (1 - s0 = s0) := by omega
+    simp only [startCfg, hne, if_false, if_true, Option.some.injEq, Prod.mk.injEq]
+    intro ⟨e, _⟩; omega
+  · intro _ o ho; simp [startCfg] at ho
+  · intro st hst; simp [startCfg] at hst
+
 /-- non-vacuity: a commit (two page writes, sync, header, sync) is accepted, and an
     image that lost one of the two data writes but kept nothing else still recovers state 0 -/
 def exReach : Nat → List (Nat × Hash) := fun st => if st = 1 then [(5, 77), (6, 88)] else []
